@@ -67,14 +67,22 @@ def run_temperature_config(cfg):
     else:
         ann = {"do_annealing": True, "initial_temperature": T0, "n_plateau": P}
         if cfg.get("count") is not None:
-            ann.update(n_iter=cfg["count"], n_iter_frac=None)
+            ann.update(n_iter=cfg["count"])
+            if not cfg.get("keep_default_frac"):
+                ann.update(n_iter_frac=None)  # otherwise the default ratio stays in the settings: the explicit count has priority
         else:
             ann.update(n_iter_frac=cfg["frac"])
     problems = []
     try:
         algo = make_algo(n_iter, ann)
         algo._initialize_annealing()
-    except (LeaspyAlgoInputError, LeaspyInputError):
+    except (LeaspyAlgoInputError, LeaspyInputError) as e:
+        # documented requirements: initial temperature > 1, at least one plateau, a count >= 0 or a ratio in [0, 1]
+        valid = cfg["on"] and cfg["T0"] is not None and cfg["T0"] > 1 and cfg["P"] is not None and cfg["P"] >= 1 and (
+            (cfg.get("count") is not None and cfg["count"] >= 0) or (cfg.get("count") is None and cfg.get("frac") is not None and 0 <= cfg["frac"] <= 1))
+        if valid:
+            problems.append(("annealing setup|valid configuration refused|" + ("explicit count of annealing iterations" if cfg.get("count") is not None else "ratio"),
+                             f"{cfg}: {e}"))
         return "refused", None, problems
     except Exception as e:
         return "refused-with-other-exception", None, [(f"annealing setup|{type(e).__name__} instead of LeaspyAlgoInputError|", f"{type(e).__name__}: {e}")]
@@ -88,7 +96,13 @@ def run_temperature_config(cfg):
                 problems.append(("no annealing|temperature differs from 1|", f"k={k} T={algo.temperature}"))
                 break
         return "off", trace, problems
-    A = algo.algo_parameters["annealing"]["n_iter"]
+    A_impl = algo.algo_parameters["annealing"]["n_iter"]
+    # the documented number of annealing iterations: the explicit count when given (priority), else the ratio of the iterations
+    A = cfg["count"] if cfg.get("count") is not None else int(cfg["frac"] * n_iter)
+    if A_impl != A:
+        problems.append(("annealing setup|number of annealing iterations differs from the configured one|" +
+                         ("explicit count" + (", default ratio kept" if cfg.get("keep_default_frac") else "") if cfg.get("count") is not None else "ratio"),
+                         f"{cfg}: algorithm holds {A_impl}, configured {A}"))
     feature = "n_plateau=1" if P == 1 else ("annealing iterations < n_plateau-1" if A < P - 1 else ("0 annealing iterations" if A == 0 else "regular"))
     if A == 0:
         feature = "0 annealing iterations"
@@ -145,6 +159,10 @@ def temperature_configs(tier):
                     yield {"on": True, "n_iter": n_iter, "T0": T0, "P": P, "frac": frac, "count": None}
                 for count in sorted({0, 1, max(P - 2, 0), max(P - 1, 0), n_iter}):
                     yield {"on": True, "n_iter": n_iter, "T0": T0, "P": P, "frac": None, "count": count}
+                if T0 == T0S[0] and P >= 1:
+                    # an explicit count while the default ratio stays in the settings (the count has priority)
+                    for count in sorted({0, 2, max(n_iter // 3, 1)}):
+                        yield {"on": True, "n_iter": n_iter, "T0": T0, "P": P, "frac": None, "count": count, "keep_default_frac": True}
 
 
 # ------------------------------------------------------------------------------------------
